@@ -234,6 +234,26 @@ Section Cover.
       pose proof (IH s1 _ q H1) as H2. destruct (pump cfg s1 q k) as [s2 o2]. cbn [fst snd] in *.
       rewrite emits_p_app, app_assoc. exact H2.
   Qed.
+  (* a straggler ahead of the client's position, inside the window, off the broadcast grid: it is emitted and changes
+     nothing else - the from of the active entry is NOT moved (recoveryconsumer.go:307 assigns to a local copy), so the
+     records between the position and the straggler are still emitted when the client delivers them *)
+  Lemma inv_ahead s em q d : Inv s em -> Inv (fst (ahead_step cfg s q d)) (em ++ emits_p (snd (ahead_step cfg s q d))).
+  Proof.
+    intros HI. unfold ahead_step. destruct (pget q (cli s)) as [n|] eqn:En; [|apply Inv_mono; exact HI].
+    destruct (pget q (active s)) as [[f to]|] eqn:Ea; [|apply Inv_mono; exact HI].
+    destruct ((n + 1 + Z.abs d <=? to) && negb ((n + 1 + Z.abs d) mod c_every cfg =? 0)) eqn:Eg; [|apply Inv_mono; exact HI].
+    set (o := n + 1 + Z.abs d) in *.
+    destruct (Z.eq_dec q p) as [->|Hq].
+    - pose proof HI as [H1 [H2 [H3 H4]]].
+      destruct (H2 f to (pget_In _ _ _ Ea)) as [-> [Hcf [n' [Hn' [Hfn Hrange]]]]]. rewrite En in Hn'. inversion Hn'; subst n'.
+      assert (Hgrid : (o mod c_every cfg =? 0) = false) by lia.
+      destruct (rec_step_case cfg s p o) as [Ha|f1 t1 Ha Hlt|f1 t1 s' calls Ha Hfo Hto Hr|f1 t1 r Ha Hfo Hot Hr];
+        try (rewrite Ea in Ha; inversion Ha; subst); try congruence; try (exfalso; unfold o in *; lia).
+      rewrite Hgrid. cbn [andb ts tout].
+      apply Inv_mono. split; [exact H1|]. split; [exact H2|]. split; [exact H3|].
+      unfold I4, with_trk. cbn [mlog trk]. rewrite app_nil_r. exact H4.
+    - destruct (inv_rec_other s em q o Hq HI) as [Ha Hb]. rewrite Hb, app_nil_r. exact Ha.
+  Qed.
 End Cover.
 
 Lemma last_indep {A} (l : list A) d d' : l <> [] -> last l d = last l d'.
@@ -309,11 +329,12 @@ Section CoverRun.
     Inv (fst (rstep cfg s op)) (em ++ emp (snd (rstep cfg s op))).
   Proof.
     intros HI Hok. pose proof HI as [H1 [H2 [H3 H4]]].
-    destruct op as [q k|q d|q o|q o|code wm lows| |ps| |q f tt|cerr pcs|m|]; cbn [rstep ok_op] in *.
+    destruct op as [q k|q d|q d|q o|q o|code wm lows| |ps| |q f tt|cerr pcs|m|]; cbn [rstep ok_op] in *.
     - apply inv_pump. exact HI.
     - destruct (Z.eq_dec q p) as [->|Hq].
       + apply inv_rec_p; [exact HI|]. intros n Hn. unfold stale_offset. rewrite Hn. lia.
       + destruct (inv_rec_other cfg p f0 t LB s em q (stale_offset s q d) Hq HI) as [Ha Hb]. unfold emp. rewrite Hb, app_nil_r. exact Ha.
+    - apply inv_ahead. exact HI.
     - assert (Hq : q <> p) by lia.
       destruct (inv_rec_other cfg p f0 t LB s em q o Hq HI) as [Ha Hb]. unfold emp. rewrite Hb, app_nil_r. exact Ha.
     - cbn [fst snd]. unfold emp, emits_p. cbn [o_emits flat_map snd]. rewrite andb_false_r. cbn [app]. rewrite app_nil_r. exact HI.
